@@ -110,8 +110,8 @@ def T_imported(i):
 
 
 def T_exported(i):
-    # requires a parent (the code dereferences it unconditionally)
-    return z3.And(parent_is(i, "Module"), z3.Not(i["exports_none"]), i["exports_n"] > 0, i["in_exports"](i["name"]))
+    # listed in the __all__ of the parent module (an object without parent is listed nowhere)
+    return z3.And(parent_is(i, "Module"), z3.Not(i["exports_none"]), i["in_exports"](i["name"]))
 
 
 def T_wildcard(i):
@@ -127,7 +127,8 @@ def T_wildcard(i):
 def T_public(i):
     is_alias = i["self_cls"] == KINDS.index("Alias")
     is_module = i["self_cls"] == KINDS.index("Module")
-    has_all = z3.And(parent_is(i, "Module"), z3.Not(i["exports_none"]), i["exports_n"] > 0)
+    # "If the parent (module) defines __all__ and the object is not listed in, it is private": a DECLARED __all__, the empty one included
+    has_all = z3.And(parent_is(i, "Module"), z3.Not(i["exports_none"]))
     return z3.If(z3.Not(i["public_none"]), i["public_val"],
            z3.If(z3.And(z3.Not(is_alias), is_module, z3.Not(sw(i["name"], "_"))), True,
            z3.If(has_all, i["in_exports"](i["name"]),
@@ -151,7 +152,7 @@ def _table_contract(attr, table, need_parent=False):
 
 for _attr, _table, _np in [("is_special", T_special, False), ("is_private", T_private, False),
                            ("is_class_private", T_class_private, False), ("is_imported", T_imported, False),
-                           ("is_exported", T_exported, True), ("is_wildcard_exposed", T_wildcard, True),
+                           ("is_exported", T_exported, False), ("is_wildcard_exposed", T_wildcard, True),
                            ("is_public", T_public, False)]:
     contract("C01", f"table.{_attr}", [MIX + _attr], replay="replay_visibility")(_table_contract(_attr, _table, _np))
 
